@@ -21,6 +21,8 @@ func main() {
 		cmdCheck(os.Args[2:])
 	case "list":
 		cmdList(os.Args[2:])
+	case "dump":
+		cmdDump(os.Args[2:])
 	case "selftest":
 		cmdSelftest(os.Args[2:])
 	case "replay":
